@@ -398,6 +398,10 @@ def conflict_rule(ctx):
     f = ctx.f
     NSC = f.adt_by_label('schema::union_variants_per_type_lookup::PerTypeLookup::new::NoneSomeOrConflict')
     cands = [b for b in f.body_list if fn_label(b).startswith('schema::union_variants_per_type_lookup::PerTypeLookup::new::{closure')]
+    # (the two closures may have become methods of the slot type - `slot.register(..)`, `.map(Slot::into_option)`: a
+    # method only handed over as a function value stays a body of its own)
+    cands += [b for b in f.body_list if b not in cands and b.j['kind'] != 'closure' and b.id.startswith('schema::union_variants_per_type_lookup::')
+              and b.id in getattr(f, 'new_helpers', set()) and NSC and b.switches_on_adt(NSC)]
     reg = None
     fin = None
     for cb in cands:
